@@ -76,8 +76,10 @@ Transports == {"wsgi", "base"}
 \* the validator the endpoint was configured with: none, or schema validation by lxml (the parser is the same: validation happens
 \* AFTER parsing and must not change what the parser may load)
 Validators == {"none", "lxml"}
-Framings   == {"plain", "charset_decl", "multipart", "ctrl_char"}     \* ctrl_char: a C0 control character (never legal in XML 1.0) in front of the payload
-Applies(a) == /\ (a.framing = "multipart" => a.transport = "wsgi" /\ a.prot # "xml")
+\* multipart_att: a SOAP-with-attachments message: the root part AND an attachment with a Content-ID (the envelope is then taken
+\* apart and put together again before it is read)
+Framings   == {"plain", "charset_decl", "multipart", "multipart_att", "ctrl_char"}     \* ctrl_char: a C0 control character (never legal in XML 1.0) in front of the payload
+Applies(a) == /\ (a.framing \in {"multipart", "multipart_att"} => a.transport = "wsgi" /\ a.prot \in {"soap11", "soap12"})
               /\ (a.kind \in Bombs \ {"attrs_50000"} => a.pos \in {"text_unicode", "text_nested", "anyxml_text"})       \* one bomb is enough per document
               /\ (a.kind = "attrs_50000" => a.pos = "attr_value")
               /\ (a.kind \in {"ext_dtd_file", "ext_dtd_http", "ext_param_file", "ext_param_http"} => a.pos \in {"text_unicode", "attr_value"})   \* these live in the prolog (what they declare may show in a text or in an attribute)
@@ -87,7 +89,7 @@ Applies(a) == /\ (a.framing = "multipart" => a.transport = "wsgi" /\ a.prot # "x
               /\ (a.kind \in HrefBombs => a.prot # "xml" /\ a.pos = "text_nested" /\ a.framing = "plain")
               /\ (a.validator = "lxml" => a.kind \in External \cup Internal /\ a.framing = "plain")
 Attacks == {a \in [kind : Kinds, pos : Positions, prot : Protocols, transport : Transports, framing : Framings, validator : Validators] : Applies(a)}
-AppliesMore(a) == /\ (a.framing = "multipart" => a.transport = "wsgi" /\ a.prot # "xml")
+AppliesMore(a) == /\ (a.framing \in {"multipart", "multipart_att"} => a.transport = "wsgi" /\ a.prot \in {"soap11", "soap12"})
                   /\ (IF a.kind \in {"attrs_1000", "attrs_200000"} THEN a.pos = "attr_value" ELSE a.pos \in {"text_unicode", "text_nested"})
 AttacksMore == Attacks \cup {a \in [kind : BombsMore, pos : Positions, prot : Protocols, transport : Transports, framing : Framings, validator : {"none"}] : AppliesMore(a)}
 
